@@ -56,7 +56,7 @@ end
 mutual
 theorem resolveCond_ok_leaves (res : ColRef → Except Err (QName × Field)) :
     (c : Cond ColRef) → (c' : Cond QName) → resolveCond res c = .ok c' →
-    ∀ lf ∈ leaves c, ∃ qn f, res lf.2.1 = .ok (qn, f) ∧ litType lf.2.2 = some f.dtype
+    ∀ lf ∈ leaves c, ∃ qn f, res lf.2.1 = .ok (qn, f) ∧ litFits f.dtype lf.2.2 = true
   | .leaf op col l, c', h => by
     intro lf hlf
     simp only [leaves, List.mem_singleton] at hlf
@@ -88,7 +88,7 @@ theorem resolveCond_ok_leaves (res : ColRef → Except Err (QName × Field)) :
       simpa only [leaves] using resolveConds_ok_leaves res cs cs' hc
 theorem resolveConds_ok_leaves (res : ColRef → Except Err (QName × Field)) :
     (cs : List (Cond ColRef)) → (cs' : List (Cond QName)) → resolveConds res cs = .ok cs' →
-    ∀ lf ∈ leavesList cs, ∃ qn f, res lf.2.1 = .ok (qn, f) ∧ litType lf.2.2 = some f.dtype
+    ∀ lf ∈ leavesList cs, ∃ qn f, res lf.2.1 = .ok (qn, f) ∧ litFits f.dtype lf.2.2 = true
   | [], _, _ => by intro lf hlf; simp [leavesList] at hlf
   | c :: cs, cs', h => by
     simp only [resolveConds] at h
@@ -119,7 +119,7 @@ theorem select_ok_resolveQCond {rx db q r} (h : select rx db q = .ok r) :
 
 theorem typeMismatch_rejected_aux (rx : List Char → List Char → Bool) (db : DB) (q : Query) (r : Result)
     (h : select rx db q = .ok r) (c : Cond ColRef) (hc : q.cond = some c) :
-    ∀ lf ∈ leaves c, ∃ qn f, resolve db q.rels lf.2.1 = .ok (qn, f) ∧ litType lf.2.2 = some f.dtype := by
+    ∀ lf ∈ leaves c, ∃ qn f, resolve db q.rels lf.2.1 = .ok (qn, f) ∧ litFits f.dtype lf.2.2 = true := by
   obtain ⟨c', hc'⟩ := select_ok_resolveQCond h
   unfold resolveQCond at hc'
   rw [hc] at hc'
@@ -1338,16 +1338,18 @@ theorem mergeFields_origin (sel : Sel) (name : String) (on : List String) (field
 /-- each joined row is justified by one stored row per joined relation: every qualified entry
 `n.c ↦ p` of the index points at a cell whose cast value is that of column `c` in the witness row
 of relation `n` -/
-def Witnessed (db : DB) (index : List (Key × Nat)) (row : List Cell) : Prop :=
-  ∃ w : String → List Cell, ∀ n c p, dictGet index (.q n c) = some p →
-    ∃ rel, db.rel? n = some rel ∧ w n ∈ rel.rows ∧ (row.getD p noCell).val = (cellOf rel (w n) c).val
+def Witnessed (db : DB) (index : List (Key × Nat)) (joined : List String) (row : List Cell) : Prop :=
+  ∃ w : String → List Cell,
+    (∀ n ∈ joined, ∃ rel, db.rel? n = some rel ∧ w n ∈ rel.rows) ∧
+    ∀ n c p, dictGet index (.q n c) = some p →
+      ∃ rel, db.rel? n = some rel ∧ w n ∈ rel.rows ∧ (row.getD p noCell).val = (cellOf rel (w n) c).val
 
 structure SelInv (db : DB) (sel : Sel) : Prop where
   fresh : sel.joined = [] → sel.fields = [] ∧ sel.index = []
   len : ∀ row ∈ sel.data, row.length = sel.fields.length
   bound : ∀ key p, dictGet sel.index key = some p → p < sel.fields.length
   joined : ∀ n c p, dictGet sel.index (.q n c) = some p → n ∈ sel.joined
-  wit : ∀ row ∈ sel.data, Witnessed db sel.index row
+  wit : ∀ row ∈ sel.data, Witnessed db sel.index sel.joined row
 
 theorem getD_append_left' (l x : List Cell) (p : Nat) (h : p < l.length) :
     (l ++ x).getD p noCell = l.getD p noCell := by
@@ -1370,7 +1372,7 @@ theorem merge_inv (db : DB) (sel : Sel) (L : List (List Cell))
     (hbound : ∀ key p, dictGet sel.index key = some p → p < sel.fields.length)
     (hjoined : ∀ n c p, dictGet sel.index (.q n c) = some p → n ∈ sel.joined)
     (hL1 : ∀ l ∈ L, l.length = sel.fields.length)
-    (hL4 : ∀ l ∈ L, Witnessed db sel.index l)
+    (hL4 : ∀ l ∈ L, Witnessed db sel.index sel.joined l)
     (name : String) (rel : Rel) (hrel : db.rel? name = some rel) (hnew : name ∉ sel.joined)
     (fields' : List Field) (rV : List Nat) (on : List String)
     (hrVlen : rV.length = fields'.length)
@@ -1412,9 +1414,17 @@ theorem merge_inv (db : DB) (sel : Sel) (L : List (List Cell))
   · intro row' hrow'
     simp only [mergeFields] at hrow' ⊢
     obtain ⟨l, hl, r, hr, e, hagree⟩ := hdata row' hrow'
-    obtain ⟨w, hw⟩ := hL4 l hl
+    obtain ⟨w, hwj, hw⟩ := hL4 l hl
     have hlen := hL1 l hl
-    refine ⟨fun n => if n = name then r else w n, ?_⟩
+    refine ⟨fun n => if n = name then r else w n, ?_, ?_⟩
+    · intro n hn
+      rcases List.mem_append.mp hn with hn | hn
+      · have hne : n ≠ name := fun e => hnew (e ▸ hn)
+        obtain ⟨rel', h1, h2⟩ := hwj n hn
+        exact ⟨rel', h1, by simpa [hne] using h2⟩
+      · simp only [List.mem_singleton] at hn
+        subst hn
+        exact ⟨rel, hrel, by simpa using hr⟩
     intro n c p h
     -- a new column of `name`
     have newcol : ∀ i f, i < fields'.length → fields'[i]? = some f → p = sel.fields.length + i →
@@ -1516,7 +1526,11 @@ theorem nestedStep_inv (db : DB) (sel sel' : Sel) (j : String × List String) (h
           have hj : sel.joined = [] := by simpa using he
           obtain ⟨hf, hi⟩ := hinv.fresh hj
           refine merge_inv db sel [[]] hinv.bound hinv.joined (by simp [hf])
-            (by intro l _; exact ⟨fun _ => [], by intro n c p hp; rw [hi] at hp; simp [dictGet] at hp⟩)
+            (by
+              intro l _
+              refine ⟨fun _ => [], ?_, ?_⟩
+              · intro n hn; rw [hj] at hn; cases hn
+              · intro n c p hp; rw [hi] at hp; simp [dictGet] at hp)
             j.1 rel hrel hnew _ indices [] (by simp) (field_of_indices rel j.2 indices hm _) _ ?_
           intro row' hrow'
           simp only [List.mem_map] at hrow'
@@ -1709,7 +1723,7 @@ theorem select_sound_aux (rx : List Char → List Char → Bool) (db : DB) (q : 
       cases hrows
       simp only [List.mem_map] at hout
       obtain ⟨row, hrow, e⟩ := hout
-      obtain ⟨w, hw⟩ := hinv.wit row hrow
+      obtain ⟨w, hwj, hw⟩ := hinv.wit row hrow
       exact ⟨w, pick pidx row, e.symm, proj_witnessed db sel.index row w hw proj pidx hp,
         by intro c hc; cases hc⟩
     | some c =>
@@ -1720,7 +1734,7 @@ theorem select_sound_aux (rx : List Char → List Char → Bool) (db : DB) (q : 
         cases hrows
         simp only [List.mem_map, List.mem_filter] at hout
         obtain ⟨row, ⟨hrow, hev⟩, e⟩ := hout
-        obtain ⟨w, hw⟩ := hinv.wit row hrow
+        obtain ⟨w, hwj, hw⟩ := hinv.wit row hrow
         refine ⟨w, pick pidx row, e.symm, proj_witnessed db sel.index row w hw proj pidx hp, ?_⟩
         intro c' hc'
         cases hc'
@@ -3393,5 +3407,654 @@ theorem lexLine_words : ∀ (ps : List (List Char × LTok)) (n : Nat), ps.length
     simp only [hlex, List.length_cons, List.length_append]
     rw [if_pos (by omega), lexLine_space, ih m (by omega) (fun x hx => hp x (by simp [hx])) hs']
     rfl
+
+
+/-! ## fuel is sufficient -/
+
+theorem orderJoins_no_fuel (db : DB) : ∀ (n : Nat) (jm : JoinMap) (joins : List (String × List String))
+    (jk : List String), jm.length ≤ n → orderJoins db n jm joins jk ≠ .error .fuel := by
+  intro n
+  induction n with
+  | zero =>
+    intro jm joins jk h
+    cases jm with
+    | nil => simp [orderJoins]
+    | cons a as => simp at h
+  | succ n ih =>
+    intro jm joins jk h
+    cases jm with
+    | nil => simp [orderJoins]
+    | cons a as =>
+      simp only [orderJoins]
+      split
+      · simp
+      · rename_i p hfind
+        have hp : p ∈ a :: as := List.mem_of_find?_eq_some hfind
+        apply ih
+        rw [List.length_erase_of_mem hp]
+        simp only [List.length_cons] at h ⊢
+        omega
+
+theorem filter_length_lt {α} (p q : α → Bool) (hq : ∀ x, q x = true → p x = true) :
+    ∀ (l : List α) (r : α), r ∈ l → p r = true → q r = false → (l.filter q).length < (l.filter p).length := by
+  have hle : ∀ l : List α, (l.filter q).length ≤ (l.filter p).length := by
+    intro l
+    induction l with
+    | nil => simp
+    | cons a l ih =>
+      by_cases ha : q a = true
+      · simp [ha, hq a ha]; exact ih
+      · have ha' : q a = false := by simpa using ha
+        by_cases hpa : p a = true
+        · simp [ha', hpa]; omega
+        · have : p a = false := by simpa using hpa
+          simp [ha', this]; exact ih
+  intro l
+  induction l with
+  | nil => intro r hr; simp at hr
+  | cons a l ih =>
+    intro r hr hpr hqr
+    rcases List.mem_cons.mp hr with e | e
+    · subst e
+      have := hle l
+      simp [hpr, hqr]; omega
+    · have := ih r e hpr hqr
+      by_cases ha : q a = true
+      · simp [ha, hq a ha]; exact this
+      · have ha' : q a = false := by simpa using ha
+        by_cases hpa : p a = true
+        · simp [ha', hpa]; omega
+        · have hpa' : p a = false := by simpa using hpa
+          simp [ha', hpa']; exact this
+
+/-- candidates for a linking relation that are still unused -/
+def unusedRels (db : DB) (used : List String) : List Rel := db.filter (fun r => !used.contains r.name)
+
+theorem pivotLoop_no_fuel (db : DB) (relset : List String) : ∀ (n : Nat) (pivots : List String),
+    (unusedRels db (relset ++ pivots)).length < n → pivotLoop db n relset pivots ≠ .error .fuel := by
+  intro n
+  induction n with
+  | zero => intro pivots h; simp at h
+  | succ n ih =>
+    intro pivots h
+    simp only [pivotLoop]
+    split
+    · simp
+    · split
+      · simp
+      · rename_i r hfind
+        have hr := List.find?_some hfind
+        have hmem := List.mem_of_find?_eq_some hfind
+        simp only [Bool.and_eq_true, Bool.not_eq_true', decide_eq_true_eq] at hr
+        apply ih
+        have hlt : (unusedRels db (relset ++ (pivots ++ [r.name]))).length
+            < (unusedRels db (relset ++ pivots)).length := by
+          apply filter_length_lt _ _ _ db r hmem
+          · simpa using hr.1.1
+          · simp
+          · intro x hx
+            simp only [Bool.not_eq_true', List.contains_eq_mem, List.mem_append, decide_eq_false_iff_not] at hx ⊢
+            intro hc
+            exact hx (by rcases hc with hc | hc; exact Or.inl hc; exact Or.inr (Or.inl hc))
+        omega
+
+theorem unusedRels_le (db : DB) (used : List String) : (unusedRels db used).length ≤ db.length :=
+  List.length_filter_le _ _
+
+/-- the planner's recursion fuel is never the reason for an error -/
+theorem planJoins_no_fuel (db : DB) (projection condFs : List QName) (rels : List String) :
+    planJoins db projection condFs rels ≠ .error .fuel := by
+  unfold planJoins
+  simp only
+  split
+  · simp
+  · split
+    · rename_i e he
+      intro h
+      cases h
+      exact pivotLoop_no_fuel db _ (db.length + 1) [] (by have := unusedRels_le db ((rels ++ List.map (·.1) (projection ++ condFs).eraseDups).eraseDups ++ []); omega) he
+    · split
+      · rename_i e he
+        intro h
+        cases h
+        exact orderJoins_no_fuel db _ _ [] [] (Nat.le_succ _) he
+      · simp
+
+theorem dropWhile_length_le {α} (p : α → Bool) (l : List α) : (l.dropWhile p).length ≤ l.length := by
+  induction l with
+  | nil => simp
+  | cons a l ih =>
+    simp only [List.dropWhile_cons]
+    split
+    · simp only [List.length_cons]; omega
+    · exact Nat.le_refl _
+
+/-- the lexer's recursion fuel suffices: one unit per character and one more -/
+theorem lexLine_no_fuel : ∀ (n : Nat) (s : List Char), s.length < n → lexLine n s ≠ .error .fuel := by
+  intro n
+  induction n with
+  | zero => intro s h; simp at h
+  | succ n ih =>
+    intro s h
+    simp only [lexLine]
+    split
+    · simp
+    · rename_i s' hs'
+      split
+      · simp
+      · rename_i t r _
+        split
+        · rename_i hlt
+          have hle : (s.dropWhile isSpaceC).length ≤ s.length := dropWhile_length_le _ _
+          have := ih r (by omega)
+          split
+          · rename_i e he; intro hc; cases hc; exact this he
+          · simp
+        · simp
+
+
+/-! ## shared keys: all relations that have `k` as a key see the same value -/
+
+theorem mergeStep_u_pres (name : String) (off : Nat) (ix : List (Key × Nat)) (p : Field × Nat) (c : String) (q : Nat)
+    (h : dictGet ix (.u c) = some q) : dictGet (mergeStep name off ix p) (.u c) = some q := by
+  simp only [mergeStep]
+  rw [dictGet_dictSet]
+  simp only [reduceCtorEq, if_false]
+  unfold dictAdd
+  split
+  · exact h
+  · rw [dictGet_append, h]
+
+theorem mergeStep_u_new (name : String) (off : Nat) (ix : List (Key × Nat)) (p : Field × Nat) :
+    ∃ q, dictGet (mergeStep name off ix p) (.u p.1.name) = some q := by
+  simp only [mergeStep]
+  rw [dictGet_dictSet]
+  simp only [reduceCtorEq, if_false]
+  unfold dictAdd
+  split
+  · rename_i h
+    cases hd : dictGet ix (.u p.1.name) with
+    | none => simp [hd] at h
+    | some q => exact ⟨q, rfl⟩
+  · rename_i h
+    have hn : dictGet ix (.u p.1.name) = none := by
+      cases hd : dictGet ix (.u p.1.name) with
+      | none => rfl
+      | some q => simp [hd] at h
+    rw [dictGet_append, hn]
+    simp
+
+theorem mergeFold_u_pres (name : String) (off : Nat) (c : String) (q : Nat) :
+    ∀ (ps : List (Field × Nat)) (ix : List (Key × Nat)), dictGet ix (.u c) = some q →
+    dictGet (ps.foldl (mergeStep name off) ix) (.u c) = some q := by
+  intro ps
+  induction ps with
+  | nil => intro ix h; exact h
+  | cons p ps ih => intro ix h; exact ih _ (mergeStep_u_pres name off ix p c q h)
+
+theorem mergeFold_u_new (name : String) (off : Nat) :
+    ∀ (ps : List (Field × Nat)) (ix : List (Key × Nat)) (p : Field × Nat), p ∈ ps →
+    ∃ q, dictGet (ps.foldl (mergeStep name off) ix) (.u p.1.name) = some q := by
+  intro ps
+  induction ps with
+  | nil => intro ix p hp; simp at hp
+  | cons a ps ih =>
+    intro ix p hp
+    rcases List.mem_cons.mp hp with e | e
+    · subst e
+      obtain ⟨q, hq⟩ := mergeStep_u_new name off ix p
+      exact ⟨q, mergeFold_u_pres name off _ q ps _ hq⟩
+    · exact ih _ p e
+
+theorem onFold_u_pres (name : String) (c : String) (q : Nat) :
+    ∀ (on : List String) (ix : List (Key × Nat)), dictGet ix (.u c) = some q →
+    dictGet (on.foldl (fun ix nm => match dictGet ix (.u nm) with
+        | some i => dictSet ix (.q name nm) i
+        | none => ix) ix) (.u c) = some q := by
+  intro on
+  induction on with
+  | nil => intro ix h; exact h
+  | cons k on ih =>
+    intro ix h
+    simp only [List.foldl_cons]
+    apply ih
+    split
+    · rw [dictGet_dictSet]; simp only [reduceCtorEq, if_false]; exact h
+    · exact h
+
+/-- unqualified entries that exist before `_merge_fields` keep their position -/
+theorem mergeFields_u_pres (sel : Sel) (name : String) (on : List String) (fields : List Field) (c : String)
+    (q : Nat) (h : dictGet sel.index (.u c) = some q) :
+    dictGet (mergeFields sel name on fields).index (.u c) = some q := by
+  simp only [mergeFields]
+  exact onFold_u_pres name c q on _ (mergeFold_u_pres name _ c q _ _ h)
+
+/-- every new column has an unqualified entry afterwards -/
+theorem mergeFields_u_new (sel : Sel) (name : String) (on : List String) (fields : List Field) (f : Field)
+    (hf : f ∈ fields) : ∃ q, dictGet (mergeFields sel name on fields).index (.u f.name) = some q := by
+  simp only [mergeFields]
+  obtain ⟨i, hi⟩ := List.mem_iff_getElem?.mp hf
+  have hp : (f, 0 + i) ∈ fields.zipIdx 0 := by
+    apply List.mem_iff_getElem?.mpr
+    exact ⟨i, by simp [List.getElem?_zipIdx, hi]⟩
+  obtain ⟨q, hq⟩ := mergeFold_u_new name sel.fields.length (fields.zipIdx 0) sel.index (f, 0 + i) hp
+  exact ⟨q, onFold_u_pres name f.name q on _ hq⟩
+
+
+
+/-- every column of relation `n` that is named `k` is a key column -/
+def KeyCol (db : DB) (n k : String) : Prop :=
+  ∃ rel, db.rel? n = some rel ∧ ∀ f ∈ rel.fields, f.name = k → f.isKey = true
+
+/-- in every joined row, the column a relation's KEY `k` is looked up at carries the same cast value
+as the selection's column `k` (the first joined column of that name) -/
+structure KeyInv (db : DB) (sel : Sel) : Prop where
+  uex : ∀ n k p, dictGet sel.index (.q n k) = some p → ∃ q, dictGet sel.index (.u k) = some q
+  keq : ∀ n k p q, dictGet sel.index (.q n k) = some p → dictGet sel.index (.u k) = some q → KeyCol db n k →
+    ∀ row ∈ sel.data, (row.getD p noCell).val = (row.getD q noCell).val
+
+theorem keyInv_merge (db : DB) (sel : Sel) (L : List (List Cell))
+    (hbound : ∀ key p, dictGet sel.index key = some p → p < sel.fields.length)
+    (hL1 : ∀ l ∈ L, l.length = sel.fields.length)
+    (huex : ∀ n k p, dictGet sel.index (.q n k) = some p → ∃ q, dictGet sel.index (.u k) = some q)
+    (hkeq : ∀ n k p q, dictGet sel.index (.q n k) = some p → dictGet sel.index (.u k) = some q → KeyCol db n k →
+      ∀ l ∈ L, (l.getD p noCell).val = (l.getD q noCell).val)
+    (name : String) (rel : Rel) (hrel : db.rel? name = some rel)
+    (fields' : List Field) (rV : List Nat) (on : List String)
+    (hrV : ∀ (i : Nat) (f : Field), fields'[i]? = some f → ∃ j, rV[i]? = some j ∧ rel.fieldIdx? f.name = some j)
+    (hsub : ∀ f ∈ fields', f ∈ rel.fields)
+    (hkeyfresh : ∀ f ∈ fields', f.isKey = true → dictGet sel.index (.u f.name) = none)
+    (hnoton : ∀ f ∈ fields', f.name ∉ on)
+    (hon : ∀ k ∈ on, ∃ p, dictGet sel.index (.u k) = some p)
+    (data' : List (List Cell))
+    (hdata : ∀ row' ∈ data', ∃ l ∈ L, ∃ r : List Cell, row' = l ++ pick rV r) :
+    KeyInv db (mergeFields { sel with data := data' } name on fields') := by
+  have horigin := mergeFields_origin { sel with data := data' } name on fields'
+  have hpres := mergeFields_u_pres { sel with data := data' } name on fields'
+  have hnew := mergeFields_u_new { sel with data := data' } name on fields'
+  simp only at horigin hpres hnew
+  constructor
+  · intro n k p h
+    rcases horigin (.q n k) p h with o | ⟨k', hk', e, _⟩
+    · rcases o with eold | ⟨i, f, _, hf, _, hkey⟩
+      · obtain ⟨q, hq⟩ := huex n k p eold
+        exact ⟨q, hpres k q hq⟩
+      · rcases hkey with hkey | hkey
+        · cases hkey
+        · cases hkey
+          exact hnew f (List.mem_iff_getElem?.mpr ⟨i, hf⟩)
+    · cases e
+      obtain ⟨q, hq⟩ := hon k hk'
+      exact ⟨q, hpres k q hq⟩
+  · intro n k p q hp hq hkc row' hrow'
+    simp only [mergeFields] at hrow'
+    obtain ⟨l, hl, r, e⟩ := hdata row' hrow'
+    have hlen := hL1 l hl
+    have old : ∀ key x, dictGet sel.index key = some x → row'.getD x noCell = l.getD x noCell := by
+      intro key x hk
+      rw [e, getD_append_left' _ _ _ (by rw [hlen]; exact hbound key x hk)]
+    have newcell : ∀ i f, fields'[i]? = some f → row'.getD (sel.fields.length + i) noCell = cellOf rel r f.name := by
+      intro i f hf
+      obtain ⟨j, hj1, hj2⟩ := hrV i f hf
+      rw [e, ← hlen, getD_append_right', pick_getD rV r i j hj1, cellOf_eq rel r f.name j hj2]
+    -- where the unqualified entry comes from
+    have hqo : Origin1 sel.index name sel.fields.length fields' fields'.length (.u k) q := by
+      rcases horigin (.u k) q hq with o | ⟨_, _, e', _⟩
+      · exact o
+      · cases e'
+    rcases horigin (.q n k) p hp with o | ⟨k', hk', ek, o⟩
+    · rcases o with eold | ⟨i, f, _, hf, hpi, hkey⟩
+      · -- an old qualified entry: the unqualified one is old too
+        obtain ⟨q0, hq0⟩ := huex n k p eold
+        have : q = q0 := by have := hpres k q0 hq0; rw [hq] at this; exact Option.some.inj this
+        subst this
+        rw [old _ p eold, old _ q hq0]
+        exact hkeq n k p q eold hq0 hkc l hl
+      · rcases hkey with hkey | hkey
+        · cases hkey
+        · cases hkey
+          -- a new key column: the unqualified entry is new as well and names the same column
+          have hfm : f ∈ fields' := List.mem_iff_getElem?.mpr ⟨i, hf⟩
+          obtain ⟨rel', hr', hall⟩ := hkc
+          rw [hrel] at hr'; cases hr'
+          have hfk : f.isKey = true := hall f (hsub f hfm) rfl
+          have hfresh := hkeyfresh f hfm hfk
+          rcases hqo with eold | ⟨j, g, _, hg, hqj, hgk⟩
+          · rw [hfresh] at eold; cases eold
+          · rcases hgk with hgk | hgk
+            · have hname : f.name = g.name := by injection hgk
+              rw [hpi, hqj, newcell i f hf, newcell j g hg, hname]
+            · cases hgk
+    · cases ek
+      -- a shared key: aliased to the selection's column of that name
+      rcases o with eold | ⟨i, f, _, hf, _, hkey⟩
+      · have : q = p := by have := hpres k p eold; rw [hq] at this; exact Option.some.inj this
+        rw [this]
+      · rcases hkey with hkey | hkey
+        · cases hkey
+          exact absurd hk' (hnoton f (List.mem_iff_getElem?.mpr ⟨i, hf⟩))
+        · cases hkey
+
+
+
+theorem dictSet_isSome {α} (d : List (Key × α)) (k : Key) (v : α) (k' : Key) (h : (dictGet d k').isSome = true) :
+    (dictGet (dictSet d k v) k').isSome = true := by
+  rw [dictGet_dictSet]; split <;> simp [h]
+
+theorem dictAdd_isSome {α} (d : List (Key × α)) (k : Key) (v : α) (k' : Key) (h : (dictGet d k').isSome = true) :
+    (dictGet (dictAdd d k v) k').isSome = true := by
+  unfold dictAdd
+  split
+  · exact h
+  · rw [dictGet_append]
+    cases hd : dictGet d k' with
+    | none => simp [hd] at h
+    | some x => simp
+
+theorem mergeFold_isSome (name : String) (off : Nat) (key : Key) :
+    ∀ (ps : List (Field × Nat)) (ix : List (Key × Nat)), (dictGet ix key).isSome = true →
+    (dictGet (ps.foldl (mergeStep name off) ix) key).isSome = true := by
+  intro ps
+  induction ps with
+  | nil => intro ix h; exact h
+  | cons p ps ih => intro ix h; exact ih _ (dictSet_isSome _ _ _ _ (dictAdd_isSome _ _ _ _ h))
+
+theorem onFold_isSome (name : String) (key : Key) :
+    ∀ (on : List String) (ix : List (Key × Nat)), (dictGet ix key).isSome = true →
+    (dictGet (on.foldl (fun ix nm => match dictGet ix (.u nm) with
+        | some i => dictSet ix (.q name nm) i
+        | none => ix) ix) key).isSome = true := by
+  intro on
+  induction on with
+  | nil => intro ix h; exact h
+  | cons k on ih =>
+    intro ix h
+    simp only [List.foldl_cons]
+    apply ih
+    split
+    · exact dictSet_isSome _ _ _ _ h
+    · exact h
+
+/-- entries are never removed from the index -/
+theorem mergeFields_isSome (sel : Sel) (name : String) (on : List String) (fields : List Field) (key : Key)
+    (h : (dictGet sel.index key).isSome = true) : (dictGet (mergeFields sel name on fields).index key).isSome = true := by
+  simp only [mergeFields]
+  exact onFold_isSome name key on _ (mergeFold_isSome name _ key _ _ h)
+
+theorem mergeFold_q_new (name : String) (off : Nat) :
+    ∀ (ps : List (Field × Nat)) (ix : List (Key × Nat)) (p : Field × Nat), p ∈ ps →
+    (dictGet (ps.foldl (mergeStep name off) ix) (.q name p.1.name)).isSome = true := by
+  intro ps
+  induction ps with
+  | nil => intro ix p hp; simp at hp
+  | cons a ps ih =>
+    intro ix p hp
+    rcases List.mem_cons.mp hp with e | e
+    · subst e
+      simp only [List.foldl_cons]
+      apply mergeFold_isSome
+      simp only [mergeStep]
+      rw [dictGet_dictSet]; simp
+    · exact ih _ p e
+
+/-- every new column gets its qualified entry -/
+theorem mergeFields_q_new (sel : Sel) (name : String) (on : List String) (fields : List Field) (f : Field)
+    (hf : f ∈ fields) : (dictGet (mergeFields sel name on fields).index (.q name f.name)).isSome = true := by
+  simp only [mergeFields]
+  obtain ⟨i, hi⟩ := List.mem_iff_getElem?.mp hf
+  have hp : (f, 0 + i) ∈ fields.zipIdx 0 := by
+    apply List.mem_iff_getElem?.mpr
+    exact ⟨i, by simp [List.getElem?_zipIdx, hi]⟩
+  exact onFold_isSome name _ on _ (mergeFold_q_new name sel.fields.length (fields.zipIdx 0) sel.index (f, 0 + i) hp)
+
+/-- every shared key gets its qualified entry -/
+theorem onFold_q_new (name : String) : ∀ (on : List String) (ix : List (Key × Nat)) (k : String), k ∈ on →
+    (dictGet ix (.u k)).isSome = true →
+    (dictGet (on.foldl (fun ix nm => match dictGet ix (.u nm) with
+        | some i => dictSet ix (.q name nm) i
+        | none => ix) ix) (.q name k)).isSome = true := by
+  intro on
+  induction on with
+  | nil => intro ix k hk; simp at hk
+  | cons a on ih =>
+    intro ix k hk hu
+    simp only [List.foldl_cons]
+    rcases List.mem_cons.mp hk with e | e
+    · subst e
+      apply onFold_isSome
+      cases hd : dictGet ix (.u k) with
+      | none => simp [hd] at hu
+      | some i => rw [dictGet_dictSet]; simp
+    · apply ih _ k e
+      split
+      · exact dictSet_isSome _ _ _ _ hu
+      · exact hu
+
+theorem mergeFields_on_new (sel : Sel) (name : String) (on : List String) (fields : List Field) (k : String)
+    (hk : k ∈ on) (hu : (dictGet sel.index (.u k)).isSome = true) :
+    (dictGet (mergeFields sel name on fields).index (.q name k)).isSome = true := by
+  simp only [mergeFields]
+  exact onFold_q_new name on _ k hk (mergeFold_isSome name _ _ _ _ hu)
+
+
+
+theorem mapM_some_fwd {α β} (f : α → Option β) :
+    (l : List α) → (r : List β) → l.mapM f = some r → ∀ a ∈ l, ∃ x ∈ r, f a = some x
+  | [], r, h => by intro a ha; simp at ha
+  | a :: l, r, h => by
+    rw [List.mapM_cons] at h
+    cases hfa : f a with
+    | none => simp [hfa] at h
+    | some b =>
+      cases hl : l.mapM f with
+      | none => simp [hfa, hl] at h
+      | some bs =>
+        simp [hfa, hl] at h
+        subst h
+        intro x hx
+        rcases List.mem_cons.mp hx with e | e
+        · subst e; exact ⟨b, by simp, hfa⟩
+        · obtain ⟨y, hy, hf⟩ := mapM_some_fwd f l bs hl x e
+          exact ⟨y, by simp [hy], hf⟩
+
+theorem fields_of_cols (rel : Rel) (cols : List String) (indices : List Nat)
+    (hm : cols.mapM rel.fieldIdx? = some indices) (d : Field) :
+    (∀ f ∈ indices.map (fun i => rel.fields.getD i d), f ∈ rel.fields) ∧
+    (∀ c ∈ cols, ∃ f ∈ indices.map (fun i => rel.fields.getD i d), f.name = c) := by
+  have valid : ∀ col j, rel.fieldIdx? col = some j → rel.fields.getD j d ∈ rel.fields ∧ (rel.fields.getD j d).name = col := by
+    intro col j h
+    refine ⟨?_, fieldIdx_name rel col j h d⟩
+    unfold Rel.fieldIdx? at h
+    rw [List.findIdx?_eq_some_iff_getElem] at h
+    obtain ⟨hj, _, _⟩ := h
+    rw [List.getD_eq_getElem?_getD, List.getElem?_eq_getElem hj]
+    exact List.getElem_mem hj
+  constructor
+  · intro f hf
+    obtain ⟨j, hj, e⟩ := List.mem_map.mp hf
+    obtain ⟨col, _, hcol⟩ := mapM_some_mem _ cols indices hm j hj
+    rw [← e]; exact (valid col j hcol).1
+  · intro c hc
+    obtain ⟨j, hj, hcj⟩ := mapM_some_fwd _ cols indices hm c hc
+    exact ⟨rel.fields.getD j d, List.mem_map.mpr ⟨j, hj, rfl⟩, (valid c j hcj).2⟩
+
+theorem nestedStep_key (db : DB) (sel sel' : Sel) (j : String × List String) (hinv : SelInv db sel)
+    (hk : KeyInv db sel) (h : nestedStep db sel j = .ok sel') :
+    KeyInv db sel' ∧ (∀ c ∈ j.2, (dictGet sel'.index (.q j.1 c)).isSome = true) ∧
+    (∀ key, (dictGet sel.index key).isSome = true → (dictGet sel'.index key).isSome = true) ∧
+    sel'.joined = sel.joined ++ [j.1] := by
+  unfold nestedStep at h
+  by_cases hc : sel.joined.contains j.1 = true
+  · simp only [hc, if_true] at h; cases h
+  · simp only [hc] at h
+    cases hrel : db.rel? j.1 with
+    | none => simp only [hrel] at h; cases h
+    | some rel =>
+      simp only [hrel] at h
+      cases hm : j.2.mapM rel.fieldIdx? with
+      | none => simp only [hm] at h; cases h
+      | some indices =>
+        simp only [hm] at h
+        obtain ⟨hsubF, hcover⟩ := fields_of_cols rel j.2 indices hm ⟨"", .string, false⟩
+        by_cases he : sel.joined.isEmpty = true
+        · simp only [he, if_true] at h
+          cases h
+          have hj : sel.joined = [] := by simpa using he
+          obtain ⟨hf, hi⟩ := hinv.fresh hj
+          refine ⟨?_, ?_, fun key hs => mergeFields_isSome _ _ _ _ key hs, by simp [mergeFields]⟩
+          · refine keyInv_merge db sel [[]] hinv.bound (by simp [hf]) hk.uex
+              (by intro n k p q hp; rw [hi] at hp; simp [dictGet] at hp)
+              j.1 rel hrel _ indices [] (field_of_indices rel j.2 indices hm _) hsubF
+              (by intro f _ _; rw [hi]; rfl) (by intro f _; simp) (by intro k hk'; simp at hk') _ ?_
+            intro row' hrow'
+            simp only [List.mem_map] at hrow'
+            obtain ⟨r, _, e⟩ := hrow'
+            exact ⟨[], by simp, r, by simp [e]⟩
+          · intro c hc'
+            obtain ⟨f, hf', hn⟩ := hcover c hc'
+            rw [← hn]
+            exact mergeFields_q_new _ _ _ _ f hf'
+        · simp only [he] at h
+          by_cases hon : (sharedKeys sel (indices.map (fun i => rel.fields.getD i ⟨"", .string, false⟩))).isEmpty = true
+          · simp only [hon, if_true] at h; cases h
+          · simp only [hon] at h
+            cases h
+            have hsome : ∀ f ∈ (indices.map (fun i => rel.fields.getD i ⟨"", .string, false⟩)).filter
+                (fun f => !(sharedKeys sel (indices.map (fun i => rel.fields.getD i ⟨"", .string, false⟩))).contains f.name),
+                (rel.fieldIdx? f.name).isSome := by
+              intro f hf
+              obtain ⟨i, hi⟩ := List.mem_iff_getElem?.mp (List.mem_filter.mp hf).1
+              obtain ⟨jx, _, hjx⟩ := field_of_indices rel j.2 indices hm _ i f hi
+              simp [hjx]
+            have hal := filterMap_aligned (fun f : Field => rel.fieldIdx? f.name) _ hsome
+            refine ⟨?_, ?_, fun key hs => mergeFields_isSome _ _ _ _ key hs, by simp [mergeFields]⟩
+            · refine keyInv_merge db sel sel.data hinv.bound hinv.len hk.uex hk.keq
+                j.1 rel hrel _ _ _ hal.2 (fun f hf => hsubF f (List.mem_filter.mp hf).1) ?_ ?_ ?_ _ ?_
+              · intro f hf hfk
+                have hfil := (List.mem_filter.mp hf)
+                cases hd : dictGet sel.index (.u f.name) with
+                | none => rfl
+                | some q =>
+                  have : f.name ∈ sharedKeys sel (indices.map (fun i => rel.fields.getD i ⟨"", .string, false⟩)) := by
+                    unfold sharedKeys
+                    exact List.mem_map.mpr ⟨f, List.mem_filter.mpr ⟨hfil.1, by simp [hfk, hd]⟩, rfl⟩
+                  have hno := hfil.2
+                  simp only [Bool.not_eq_true', List.contains_eq_mem, decide_eq_false_iff_not] at hno
+                  exact absurd this hno
+              · intro f hf
+                have hno := (List.mem_filter.mp hf).2
+                simpa using hno
+              · intro k hk'
+                have := sharedKeys_left sel _ k hk'
+                cases hd : dictGet sel.index (.u k) with
+                | none => simp [hd] at this
+                | some p => exact ⟨p, rfl⟩
+              · intro row' hrow'
+                simp only [List.mem_flatMap, List.mem_map, List.mem_filter] at hrow'
+                obtain ⟨l, hl, r, _, e⟩ := hrow'
+                exact ⟨l, hl, r, e.symm⟩
+            · intro c hc'
+              obtain ⟨f, hf', hn⟩ := hcover c hc'
+              by_cases hcon : c ∈ sharedKeys sel (indices.map (fun i => rel.fields.getD i ⟨"", .string, false⟩))
+              · exact mergeFields_on_new _ _ _ _ c hcon (sharedKeys_left sel _ c hcon)
+              · rw [← hn]
+                apply mergeFields_q_new
+                apply List.mem_filter.mpr
+                exact ⟨hf', by rw [hn]; simpa using hcon⟩
+
+
+
+theorem nestedJoins_key (db : DB) : (sel : Sel) → (js : List (String × List String)) → (sel' : Sel) →
+    SelInv db sel → KeyInv db sel → nestedJoins db sel js = .ok sel' →
+    KeyInv db sel' ∧ (∀ j ∈ js, ∀ c ∈ j.2, (dictGet sel'.index (.q j.1 c)).isSome = true) ∧
+    (∀ key, (dictGet sel.index key).isSome = true → (dictGet sel'.index key).isSome = true) ∧
+    sel'.joined = sel.joined ++ js.map (·.1)
+  | sel, [], sel', _, hk, h => by
+    simp only [nestedJoins] at h; cases h
+    exact ⟨hk, by simp, fun _ h => h, by simp⟩
+  | sel, j :: js, sel', hinv, hk, h => by
+    simp only [nestedJoins] at h
+    split at h
+    · cases h
+    · rename_i s1 hs1
+      obtain ⟨k1, e1, m1, j1⟩ := nestedStep_key db sel s1 j hinv hk hs1
+      obtain ⟨k2, e2, m2, j2⟩ := nestedJoins_key db s1 js sel' (nestedStep_inv db sel s1 j hinv hs1) k1 h
+      refine ⟨k2, ?_, fun key hs => m2 key (m1 key hs), by simp [j2, j1]⟩
+      intro x hx c hc
+      rcases List.mem_cons.mp hx with e | e
+      · subst e; exact m2 _ (e1 c hc)
+      · exact e2 x e c hc
+
+theorem keyInv_empty (db : DB) : KeyInv db Sel.empty :=
+  ⟨by intro n k p h; simp [Sel.empty, dictGet] at h, by intro n k p q h; simp [Sel.empty, dictGet] at h⟩
+
+/-- the witness rows of a returned row: one stored row for EVERY planned relation, agreeing (as cast
+values) on every key column that two planned relations share -/
+def JoinWitness (db : DB) (plan : Plan) (w : String → List Cell) : Prop :=
+  (∀ n ∈ plan.joins.map (·.1), ∃ rel, db.rel? n = some rel ∧ w n ∈ rel.rows) ∧
+  ∀ j1 ∈ plan.joins, ∀ j2 ∈ plan.joins, ∀ k, k ∈ j1.2 → k ∈ j2.2 → KeyCol db j1.1 k → KeyCol db j2.1 k →
+    valW db w (j1.1, k) = valW db w (j2.1, k)
+
+theorem select_sound_strong_aux (rx : List Char → List Char → Bool) (db : DB) (q : Query) (res : Result)
+    (h : select rx db q = .ok res) :
+    ∃ proj cond plan, resolveProj db q = .ok proj ∧ resolveQCond db q = .ok cond ∧
+      planJoins db proj (condFieldsOpt cond) q.rels = .ok plan ∧
+      ∀ out ∈ res.rows, ∃ (w : String → List Cell) (cells : List Cell),
+        out = cells.map (·.raw) ∧ CellsOf db w proj cells ∧
+        (∀ c, cond = some c → evalW rx db w c = true) ∧ JoinWitness db plan w := by
+  obtain ⟨proj, cond, plan, sel, rows, _, hproj, hcond, hplan, hsel, hrows, hres⟩ := select_inv h
+  refine ⟨proj, cond, plan, hproj, hcond, hplan, ?_⟩
+  rw [runJoins_eq_nestedJoins] at hsel
+  have hinv := nestedJoins_inv db Sel.empty plan.joins sel (selInv_empty db) hsel
+  obtain ⟨hkey, hex, _, hjoined⟩ := nestedJoins_key db Sel.empty plan.joins sel (selInv_empty db) (keyInv_empty db) hsel
+  have hjw : ∀ row ∈ sel.data, ∀ w, (∀ n ∈ sel.joined, ∃ rel, db.rel? n = some rel ∧ w n ∈ rel.rows) →
+      WitBy db sel.index row w → JoinWitness db plan w := by
+    intro row hrow w hwj hw
+    constructor
+    · intro n hn
+      exact hwj n (by rw [hjoined]; simpa [Sel.empty] using hn)
+    · intro j1 hj1 j2 hj2 k hk1 hk2 kc1 kc2
+      cases hp1 : dictGet sel.index (.q j1.1 k) with
+      | none => have := hex j1 hj1 k hk1; simp [hp1] at this
+      | some p1 =>
+        cases hp2 : dictGet sel.index (.q j2.1 k) with
+        | none => have := hex j2 hj2 k hk2; simp [hp2] at this
+        | some p2 =>
+          obtain ⟨qq, hq⟩ := hkey.uex j1.1 k p1 hp1
+          have e1 := hkey.keq j1.1 k p1 qq hp1 hq kc1 row hrow
+          have e2 := hkey.keq j2.1 k p2 qq hp2 hq kc2 row hrow
+          have v1 := hw.val (j1.1, k) p1 hp1
+          have v2 := hw.val (j2.1, k) p2 hp2
+          rw [← v1, ← v2, e1, e2]
+  rw [hres]
+  simp only
+  intro out hout
+  unfold finish at hrows
+  split at hrows
+  · cases hrows
+  · rename_i pidx hp
+    cases cond with
+    | none =>
+      simp only at hrows
+      cases hrows
+      simp only [List.mem_map] at hout
+      obtain ⟨row, hrow, e⟩ := hout
+      obtain ⟨w, hwj, hw⟩ := hinv.wit row hrow
+      exact ⟨w, pick pidx row, e.symm, proj_witnessed db sel.index row w hw proj pidx hp,
+        (by intro c hc; cases hc), hjw row hrow w hwj hw⟩
+    | some c =>
+      simp only at hrows
+      split at hrows
+      · cases hrows
+      · rename_i ci hci
+        cases hrows
+        simp only [List.mem_map, List.mem_filter] at hout
+        obtain ⟨row, ⟨hrow, hev⟩, e⟩ := hout
+        obtain ⟨w, hwj, hw⟩ := hinv.wit row hrow
+        refine ⟨w, pick pidx row, e.symm, proj_witnessed db sel.index row w hw proj pidx hp, ?_, hjw row hrow w hwj hw⟩
+        intro c' hc'
+        cases hc'
+        rw [← evalCond_evalW rx db sel.index row w hw c ci hci]
+        exact hev
 
 end Verif.C11
